@@ -2052,6 +2052,13 @@ func (ex *Exec) callPrecise(fr *frame, lr *loopRec, c *ssa.CallCommon, st *State
 			precise = append(precise, "")
 			continue
 		}
+		if aks, ok := ex.allButKeys(it, env); ok {
+			for _, k := range aks {
+				keys = append(keys, k)
+				precise = append(precise, "")
+			}
+			continue
+		}
 		ks, pr := ex.modItem(it, env)
 		for i, k := range ks {
 			keys = append(keys, k)
